@@ -77,12 +77,17 @@ Proof.
   - exfalso. destruct toks; [discriminate E|]. cbn [matches_search_criteria] in E. now apply eval_tokens_total in E.
 Qed.
 
-Theorem search_never_panics T parts msgs : handle_search T parts msgs <> RPanic.
+Theorem selected_never_panics T args (by_uid : bool) msgs : search_selected T args by_uid msgs <> RPanic.
 Proof.
-  unfold handle_search.
-  destruct (Z.of_nat (length parts) <? 3)%Z; [discriminate|].
+  unfold search_selected.
+  destruct (length args <? 1)%nat; [discriminate|].
   match goal with |- (if ?c then _ else _) <> _ => destruct c; [discriminate|] end.
   match goal with |- (if ?c then _ else _) <> _ => destruct c; [discriminate|] end.
   destruct (evaluate_search_criteria T msgs _) eqn:E; [discriminate|].
   unfold evaluate_search_criteria in E. now apply collect_total in E.
 Qed.
+
+Theorem search_never_panics T parts msgs : handle_search T parts msgs <> RPanic.
+Proof. apply selected_never_panics. Qed.
+Theorem uid_search_never_panics T parts msgs : handle_uid_search T parts msgs <> RPanic.
+Proof. apply selected_never_panics. Qed.
